@@ -74,8 +74,21 @@ def getStab (Lx Ly Lz : Nat) (loc : Coord) : Op := (getStab? Lx Ly Lz loc).getD 
 def logX (Lx _Ly _Lz : Nat) : List Op :=
   [ (range2 1 (2 * Lx + 1)).map fun x => ([x, 0, 0], Pauli.X) ]
 
-/-- `get_logicals_z`: the plane of Z on the x edges with `x = 1` (loop nest `y, z`) -/
-def logZ (_Lx Ly Lz : Nat) : List Op :=
+/-- `x = 3 if Lx >= 3 else 1` of `get_logicals_z`: the cross-section that carries the logical Z -/
+def logZPlane (Lx : Nat) : Int := if 3 ≤ Lx then 3 else 1
+
+/-- `get_logicals_z`: Z on the x edges of the cross-section `x = 3` when `Lx ≥ 3`, else `x = 1`
+    (loop nest `y, z`, guard `if not self._is_in_hole(x, y, z)` in the innermost loop body): the
+    membrane through the cavity when there is one -/
+def logZ (Lx Ly Lz : Nat) : List Op :=
+  [ (range2 0 (2 * Ly)).flatMap fun y =>
+      ((range2 0 (2 * Lz)).filter fun z => !inHole Lx Ly Lz (logZPlane Lx) y z).map fun z =>
+        ([logZPlane Lx, y, z], Pauli.Z) ]
+
+/-- `get_logicals_z` BEFORE the repair (regression example only): the full end plane of Z on the x
+    edges with `x = 1` (loop nest `y, z`), heavier than the membrane through the cavity — the reason
+    why `code.d` overstated the distance of long lattices -/
+def oldLogZ (_Lx Ly Lz : Nat) : List Op :=
   [ (range2 0 (2 * Ly)).flatMap fun y => (range2 0 (2 * Lz)).map fun z => ([1, y, z], Pauli.Z) ]
 
 /-- `qubit_axis` (textually the one of `Planar3DCode`) -/
@@ -105,5 +118,10 @@ def rankFamily (Lx Ly Lz : Nat) : List Coord :=
 def lattice (Lx Ly Lz : Nat) : Lattice :=
   { qubits := qubits Lx Ly Lz, stabs := stabs Lx Ly Lz, getStab := getStab Lx Ly Lz,
     logX := logX Lx Ly Lz, logZ := logZ Lx Ly Lz }
+
+/-- the lattice with the logical Z of the code before the repair (regression example only) -/
+def oldLattice (Lx Ly Lz : Nat) : Lattice :=
+  { qubits := qubits Lx Ly Lz, stabs := stabs Lx Ly Lz, getStab := getStab Lx Ly Lz,
+    logX := logX Lx Ly Lz, logZ := oldLogZ Lx Ly Lz }
 
 end Panqec.HollowPlanar3DCode
